@@ -7,9 +7,11 @@ import (
 	"io"
 	"os"
 	"os/exec"
+	"path/filepath"
 	"regexp"
 	"runtime"
 	"strings"
+	"sync"
 	"time"
 
 	"github.com/CloudyKit/jet/v6"
@@ -163,6 +165,64 @@ func c02Worker(_ []string) int {
 	in := bufio.NewReaderSize(os.Stdin, 1<<20)
 	out := bufio.NewWriter(os.Stdout)
 	enc := json.NewEncoder(out)
+	// protocol trace (VERIF_LEXTRACE=<dir>): per lexer, the parser goroutine's events in their own order and
+	// whether the lexer goroutine logged its close; one line per parse, validated against Trace_LexProc.tla
+	type lexRec struct {
+		P      []map[string]interface{} `json:"p"`
+		Closed bool                     `json:"closed"`
+		Src    string                   `json:"src"`
+		Cfg    string                   `json:"cfg"`
+	}
+	var (
+		tmu    sync.Mutex
+		recs   = map[uint64]*lexRec{}
+		order  []uint64
+		tracew *bufio.Writer
+	)
+	if dir := os.Getenv("VERIF_LEXTRACE"); dir != "" {
+		if f, err := os.Create(filepath.Join(dir, fmt.Sprintf("lex.%d.ndjson", os.Getpid()))); err == nil {
+			tracew = bufio.NewWriterSize(f, 1<<20)
+			defer f.Close()
+			defer tracew.Flush()
+			jet.VerifSetTracer(func(e jet.VerifEvent) {
+				if e.Rt != 0 || len(e.Args) == 0 || !(strings.HasPrefix(e.Ev, "lex.") || strings.HasPrefix(e.Ev, "parse.")) {
+					return
+				}
+				id, _ := e.Args[0].(uint64)
+				tmu.Lock()
+				defer tmu.Unlock()
+				r := recs[id]
+				if r == nil {
+					r = &lexRec{P: []map[string]interface{}{}}
+					recs[id] = r
+					order = append(order, id)
+				}
+				switch e.Ev {
+				case "lex.close":
+					r.Closed = true
+				case "lex.recv":
+					r.P = append(r.P, map[string]interface{}{"ev": "recv", "typ": e.Args[1]})
+				default:
+					r.P = append(r.P, map[string]interface{}{"ev": e.Ev[strings.IndexByte(e.Ev, '.')+1:]})
+				}
+			})
+		}
+	}
+	flushTrace := func(rq c02Req) {
+		if tracew == nil {
+			return
+		}
+		tmu.Lock()
+		defer tmu.Unlock()
+		tenc := json.NewEncoder(tracew)
+		for _, id := range order {
+			r := recs[id]
+			r.Src, r.Cfg = rq.Src, rq.Cfg
+			tenc.Encode(r)
+		}
+		recs, order = map[uint64]*lexRec{}, nil
+		tracew.Flush()
+	}
 	for {
 		line, err := in.ReadBytes('\n')
 		if len(line) > 0 {
@@ -215,6 +275,7 @@ func c02Worker(_ []string) int {
 				}
 				ans.Leak = runtime.NumGoroutine() - base
 			}
+			flushTrace(rq)
 			enc.Encode(&ans)
 			out.Flush()
 			if ans.Hang {
